@@ -19,8 +19,10 @@
      res      : "none" | "ready"                   (results evaluated)
      tool     : behaviour of the external program, constant for a behaviour; a record of
                 independent dimensions (see Tool below)
-     failed   : TRUE after a failed launch (the run has ended; nothing else is specified) and
-                after a refused construction (there is no object; nothing may be left behind)
+     failed   : TRUE after a failed launch (the run has ended: the wrapper object exists, it is
+                in the one end state without results, CANCELLED, and every call is still
+                answered by the life cycle) and after a refused construction (there is no
+                object; nothing may be left behind, nothing can be called)
    Step(S, c) = S' extended with oc (outcome) and out (returned value).
    oc in {"ok", "AppStateError", "TimeoutError", "Rejected"} *)
 EXTENDS Integers, Sequences, FiniteSets, TLC
@@ -112,11 +114,15 @@ ExitText(t) == CASE t.ending = "exit0" -> "0" [] t.ending = "exit3" -> "3" [] OT
 
 Calls == {"construct", "start", "join", "join_t", "join_T", "cancel", "state", "setter",
           "get_alignment", "get_order", "get_tree", "get_dist", "get_exit_code", "get_stdout",
-          "get_command", "get_process", "proc_exits", "proc_writes", "refresh"}
+          "get_command", "get_process", "get_stderr", "get_info", "proc_exits", "proc_writes", "refresh"}
 \* "construct" : the constructor of the wrapper class (it may ask the binary for its version and
 \*               it creates the temporary files); the only action while there is no object
 \* "get_dist"  : a result getter that only some wrapper classes have (the distance matrix the
 \*               program wrote, ClustalOmegaApp after full_matrix_calculation())
+\* "get_stderr": the other pipe of the program (same states as "get_stdout")
+\* "get_info"  : the informational getters that are not bound to a state (the paths of the input
+\*               / output file the program is given, the sequence type): they describe the
+\*               wrapper object, not the run, and are answered in every state
 \* "join"   : join()                - waits as long as it takes
 \* "join_t" : join(timeout = short) - expires unless the program has already exited
 \* "join_T" : join(timeout = long)  - long enough for a program that only waits for a reader
@@ -136,7 +142,8 @@ Allowed(c) ==
     [] c \in {"join", "join_t", "join_T", "cancel"} -> {"RUNNING", "FINISHED"}
     [] c = "setter" -> {"CREATED"}
     [] c \in {"get_alignment", "get_order", "get_tree", "get_dist"} -> {"JOINED"}
-    [] c \in {"get_exit_code", "get_stdout"} -> {"FINISHED", "JOINED"}
+    [] c \in {"get_exit_code", "get_stdout", "get_stderr"} -> {"FINISHED", "JOINED"}
+    [] c = "get_info" -> AppStates \ {"NONE"}
     [] c = "get_command" -> {"RUNNING", "FINISHED", "JOINED", "CANCELLED"}
     [] c = "get_process" -> {"RUNNING", "FINISHED"}
     [] c \in {"state", "proc_exits", "proc_writes", "refresh"} -> AppStates \ {"NONE"}
@@ -167,6 +174,9 @@ Evaluate(S) ==
 Blocks(S, c) ==
   \/ c \in {"join", "join_T"} /\ S.proc = "running"   \* waits for ever / for the whole long timeout
   \/ c = "join_t" /\ S.proc = "blocked"               \* a race between the timeout and the reader
+  \* Dom_CommandText: the command is reported as text; after the caller supplied an option
+  \* that is not text (the launch failure "badopt") its rendering is not specified
+  \/ c = "get_command" /\ S.tool.launch = "badopt"
 
 Step(S, c) ==
   IF c = "proc_exits" THEN With([S EXCEPT !.proc = "exited"], "ok", "")
@@ -198,11 +208,15 @@ Step(S, c) ==
          [] c = "get_dist" -> With(S, "ok", "matrix_the_program_wrote")
          [] c = "get_exit_code" -> With(S, "ok", ExitText(S.tool))
          [] c = "get_stdout" -> With(S, "ok", "text")
+         [] c = "get_stderr" -> With(S, "ok", "text")
+         [] c = "get_info" -> With(S, "ok", "text")
          [] c = "get_command" -> With(S, "ok", "text")
          [] c = "get_process" -> With(S, "ok", S.proc)
 
 Enabled(S, c) ==
-  /\ ~S.failed                                   \* after a failed launch nothing is specified
+  \* after a refused construction there is nothing to call; after a failed launch the wrapper
+  \* is an ended run like any other: every call is answered by the life cycle
+  /\ ~(S.failed /\ S.app = "NONE")
   /\ ((c = "construct") = (S.app = "NONE"))      \* no object: nothing to call but the constructor
   /\ (c = "proc_exits" => (S.proc = "running" /\ ~BigVolume(S.tool)))
   /\ (c = "proc_writes" => (S.proc = "running" /\ BigVolume(S.tool)))
